@@ -39,7 +39,7 @@ RELEVANT = {
     "C09": {"iter", "get", "get_mut", "shapes", "sweep"},
     "C13": {"gdm", "gdum", "get_mut", "sweep"},
     "C14": {"eq", "sweep"},
-    "C19": {"fmt", "iter", "alg", "drain", "into_iter"},
+    "C19": {"fmt", "iter", "alg", "drain", "into_iter", "sweep"},
     "C20": {"serde", "serde_wrong", "serde_zst", "eq", "len", "get", "iter"},
 }
 
